@@ -462,7 +462,10 @@ def run_case(case, calls=1, same_circuit=False):
     D = device_graph(case)
     bad = []
     c = None
+    case0 = case
     for k in range(calls):
+        # later calls of the SAME Passes object get circuits whose wire_names list the device qubits in another order
+        case = case0 if k == 0 or same_circuit or not case0.get("alt_wires") else dict(case0, wire_names=case0["alt_wires"][(k - 1) % len(case0["alt_wires"])])
         if c is None or not same_circuit:
             c = build_circuit(case["n"], case["wire_names"], case["gates"], case.get("density_matrix"))
         before = snapshot(c)
@@ -474,11 +477,11 @@ def run_case(case, calls=1, same_circuit=False):
         except Exception as e:
             if expected_refusal(case, e):
                 break
-            bad.append(("raises:" + type(e).__name__ if k == 0 else "reuse", f"call {k+1}: {type(e).__name__}: {e}"))
+            bad.append(("raises:" + type(e).__name__ if k == 0 else "reuse", f"call {k+1} (wire_names {case['wire_names']}): {type(e).__name__}: {e}"))
             break
         r = check_output(case, c, before, out, layout, P, D)
         if k > 0:
-            r = [("reuse", f"call {k+1} of the same Passes object: {kind}: {d}") for kind, d in r]
+            r = [("reuse", f"call {k+1} of the same Passes object (wire_names {case['wire_names']}, first call {case0['wire_names']}): {kind}: {d}") for kind, d in r]
         bad += r
         if graph_key(G) != G0:
             bad.append(("mutation", "the connectivity graph passed by the caller was modified"))
@@ -510,6 +513,9 @@ def run_shared(case):
     bad = []
     for step, k in enumerate(case["schedule"]):
         sub = subs[k]
+        seen_k = case["schedule"][:step].count(k)
+        if seen_k and sub.get("alt_wires"):
+            sub = dict(sub, wire_names=sub["alt_wires"][(seen_k - 1) % len(sub["alt_wires"])])
         G, G0, P, D = pipes[k]
         c = build_circuit(sub["n"], sub["wire_names"], sub["gates"])
         before = snapshot(c)
@@ -846,6 +852,8 @@ def make_case(rng, shape=None, style=None, placer="auto", router="auto", unroll=
             "exact": mode in ("int", "det", "detcnot"), "det": mode in ("det", "detcnot"), "mode": mode}
     if case["det"]:
         case["inputs"] = [[rng.randrange(2) for _ in range(n)] for _ in range(2)]
+    # wire names for later calls of the same Passes object: the device qubits in other orders / other subsets
+    case["alt_wires"] = [rng.sample(dev, n) for _ in range(2)]
     return case
 
 
@@ -956,14 +964,15 @@ def make_shared(rng):
                  gates=random_recipe(rng, n, rng.randint(1, 7), a["mode"], rng.choice(["none", "trailing"])))
         if b["det"]:
             b["inputs"] = [[rng.randrange(2) for _ in range(n)] for _ in range(2)]
+        b["alt_wires"] = [rng.sample(on, n) for _ in range(2)]
     elif variant == "devices":
         b = make_case(rng, shape=rng.choice([x for x in ["ring5", "line5", "tee5", "line4", "ring4", "line3", "grid6"] if x != shape]),
                       restrict=False, **kw)
     else:
         b = make_case(rng, shape=shape, style=rng.choice(["perm", "gap", "str"]), restrict=False, **kw)
     ctor = rng.choice([None, None, 0, 1])
-    schedule = rng.choice([[0, 1], [1, 0], [0, 1, 0], [1, 0, 1], [0, 0, 1]]) if ctor is None else rng.choice([[1 - ctor], [1 - ctor, ctor], [ctor, 1 - ctor]])
-    keep = ("shape", "nodes", "edges", "on_qubits", "n", "wire_names", "gates", "exact", "det", "inputs")
+    schedule = rng.choice([[0, 1], [1, 0], [0, 1, 0], [1, 0, 1], [0, 0, 1], [0, 0], [1, 1, 0], [0, 1, 1, 0]]) if ctor is None else rng.choice([[1 - ctor], [1 - ctor, ctor], [ctor, 1 - ctor]])
+    keep = ("shape", "nodes", "edges", "on_qubits", "n", "wire_names", "gates", "exact", "det", "inputs", "alt_wires")
     return {"passes": a["passes"], "natives": a["natives"], "pipelines": [{k: x[k] for k in keep if k in x} for x in (a, b)],
             "schedule": schedule, "ctor": ctor, "variant": variant}
 
@@ -1614,9 +1623,19 @@ def search_suite(ctx, rng):
             case = make_case(rng, mode="det", meas=rng.choice(["trailing", "rich"]), ngates=rng.randint(1, 6))
             case["density_matrix"] = True
             cases.append(case)
+    # ONE Passes object called two or three times with circuits whose wire_names list the device qubits in
+    # different orders (permuted names; smaller circuits whose padding yields another order), plain and rich
+    for _ in range(1200 if ctx.thorough else 140):
+        case = make_case(rng, shape=rng.choice(MAIN_SHAPES + ["grid6", "line4"]), router=rng.choice(["Sabre", "Sabre", "ShortestPaths", "auto"]),
+                         meas=rng.choice(["rich", "trailing", "none"]), ngates=rng.randint(2, 8))
+        case["calls"] = rng.choice([2, 2, 3])
+        cases.append(case)
     for case in cases:
         calls = rng.choice([1, 1, 1, 2])
         same = calls == 2 and rng.random() < 0.4
+        if case.get("calls"):
+            calls, same = case["calls"], False
+            ctx.stat("search_reuse_other_wire_order")
         try:
             bad = run_case(case, calls=calls, same_circuit=same)
         except Exception as e:  # the harness itself must not stop the check
